@@ -162,11 +162,22 @@ func C20(c Ctx) *report.Report {
 	nRew := c.N(14, 300)
 	for h := 0; h < nRew; h++ {
 		toks := []string{"cdash", "ceth", "cusdc"}[:1+rng.Intn(3)]
+		// corpus (h == 2, 3): six / seven pools of one depth - their 18-digit weights round up and add up to more than 1, so only
+		// the cap on the last pool keeps the minted amount within the block distribution
+		equalPools := h == 2 || h == 3
+		if equalPools {
+			toks = []string{"cada", "cdash", "ceth", "clink", "cusdc", "cwbtc", "czrx"}[:4+h]
+		}
 		e := env.New(env.Opts{NUsers: 4, Tokens: toks})
 		e.BeginBlock()
 		// pools (sometimes none at first: the period then starts with zero total depth and pools appear later)
-		latePools := rng.Intn(4) == 0 || h < 2 // corpus (h < 2): no depth over several distribution blocks of a period with mod > 1
+		latePools := (rng.Intn(4) == 0 || h < 2) && !equalPools // corpus (h < 2): no depth over several distribution blocks of a period with mod > 1
 		for i, t := range toks {
+			if equalPools {
+				n := new(big.Int).Mul(big.NewInt(1000000), chain.E(18))
+				mustOK(e.CreatePool(e.Users[i%2], t, n, n), "create pool")
+				continue
+			}
 			if (rng.Intn(6) == 0 && i > 0) || latePools {
 				continue // token without pool
 			}
@@ -201,6 +212,16 @@ func C20(c Ctx) *report.Report {
 		period := &clptypes.RewardPeriod{RewardPeriodId: "rp", RewardPeriodStartBlock: start, RewardPeriodEndBlock: start + length - 1,
 			RewardPeriodAllocation: &au, RewardPeriodPoolMultipliers: mults, RewardPeriodDefaultMultiplier: &dflt,
 			RewardPeriodDistribute: rng.Intn(2) == 0, RewardPeriodMod: uint64(rng.Intn(5))}
+		if equalPools {
+			one := sdk.OneDec()
+			period.RewardPeriodDefaultMultiplier, period.RewardPeriodPoolMultipliers, period.RewardPeriodDistribute = &one, nil, h == 3
+			dflt = one
+			alloc = new(big.Int).Mul(big.NewInt(int64(60000000+rng.Intn(1000))), chain.E(18))
+			au = sdk.NewUintFromBigInt(alloc)
+			if period.RewardPeriodMod == 0 {
+				period.RewardPeriodMod = 1
+			}
+		}
 		if h < 2 {
 			length = 10 + uint64(h)
 			period.RewardPeriodEndBlock = start + length - 1
